@@ -98,8 +98,13 @@ func nonCanonical(r *Rng, raw []byte) []byte {
 		k := 1 + r.Intn(len(body))
 		out = append(append(append([]field{}, body[:k]...), last), body[k:]...)
 		out = append(out, field{protowire.AppendVarint(protowire.AppendTag(nil, 15, protowire.VarintType), uint64(r.Intn(1000)))})
-	case 2: // unknown bytes field 9 after the type id
-		out = append(append([]field{}, fs...), field{protowire.AppendBytes(protowire.AppendTag(nil, 9, protowire.BytesType), r.Bytes(r.Intn(12)))})
+	case 2: // unknown bytes field 9 after the type id - now and then a LARGE one: the raw transaction is then far
+		// longer than anything of it that reaches the square (its cost is the estimate of its content, not its length)
+		pay := r.Bytes(r.Intn(12))
+		if r.Intn(3) == 0 {
+			pay = r.Bytes(1100 + r.Intn(9000))
+		}
+		out = append(append([]field{}, fs...), field{protowire.AppendBytes(protowire.AppendTag(nil, 9, protowire.BytesType), pay)})
 	default: // duplicated type id (last wins, same value)
 		out = append(append([]field{last}, body...), last)
 	}
@@ -707,6 +712,7 @@ func genC04(c *Ctx) {
 	}
 	list = append(list, manyTxManyBlobCases(c, r)...)
 	list = append(list, brimFullCases(c, r)...)
+	list = append(list, manyTinyTxCases(c, r)...)
 	nModel := len(list)
 	list = append(list, bigSquareCases(c, r, true)...) // Go side only
 	for ci, s := range list {
@@ -807,6 +813,7 @@ func genC06(c *Ctx) {
 	for i := 0; i < 220*c.scale; i++ {
 		list = append(list, randSquareCase(c, r, false, true))
 	}
+	list = append(list, fullSquareExactFitCases(c, r)...)
 	nModel := len(list)
 	// Go side only: units on varint-width boundaries aligned to share boundaries, many-blob PFBs, oversized blobs
 	list = append(list, boundaryUnitCases(c, r)...)
@@ -1314,6 +1321,68 @@ func brimFullCases(c *Ctx, r *Rng) []sqCase {
 	return out
 }
 
+// manyTinyTxCases: MORE transactions than the largest square has shares - max*max .. max*max+2 ordinary
+// transactions of 1-4 bytes (they all share one compact share) followed by blob transactions, so that a blob
+// transaction's index in the list is >= max*max.
+func manyTinyTxCases(c *Ctx, r *Rng) []sqCase {
+	var out []sqCase
+	nss := blobNamespaces(r, 2)
+	for _, max := range []int{2, 4} {
+		var l []genTx
+		for i := 0; i < max*max+r.Intn(3); i++ {
+			l = append(l, genTx{raw: r.Bytes(1 + r.Intn(4))})
+		}
+		for k := 0; k < max/2; k++ {
+			b := randBlob(r, nss, 100)
+			b.data = r.Bytes(1 + r.Intn(400))
+			bl := []genBlob{b}
+			l = append(l, genTx{raw: blobTxWithInner(mockPFB(r.Bytes(mockPFBExtraBytes), []uint32{uint32(len(b.data))}), bl), blobs: bl})
+		}
+		out = append(out, sqCase{txs: l, max: max, thr: 64})
+		c.count("more_txs_than_shares")
+	}
+	return out
+}
+
+// fullSquareExactFitCases: ordinary transactions bring the estimate to exactly max*max with the last tx share
+// partly filled (f free bytes, past the first share); the next transaction fills those f bytes EXACTLY (accepted:
+// the estimate does not grow), or needs one byte more (refused), then a small one that still fits.
+func fullSquareExactFitCases(c *Ctx, r *Rng) []sqCase {
+	var out []sqCase
+	for _, max := range []int{2, 4} {
+		for v := 0; v < 3; v++ {
+			f := 3 + r.Intn(300)
+			total := 474 + 478*(max*max-1) - f // stream bytes after the first transaction
+			first := total - 3
+			for len(refDelimited(make([]byte, first))) < total {
+				first++
+			}
+			if len(refDelimited(make([]byte, first))) != total {
+				continue
+			}
+			fit := f - 1
+			if fit >= 128 {
+				fit = f - 2
+			}
+			if fit < 1 || len(refDelimited(make([]byte, fit))) != f {
+				continue
+			}
+			l := []genTx{{raw: r.Bytes(first)}}
+			switch v {
+			case 0:
+				l = append(l, genTx{raw: r.Bytes(fit)})
+			case 1:
+				l = append(l, genTx{raw: r.Bytes(fit + 1)}, genTx{raw: r.Bytes(fit)})
+			default:
+				l = append(l, genTx{raw: r.Bytes(fit / 2)}, genTx{raw: r.Bytes(fit)}, genTx{raw: r.Bytes(1)})
+			}
+			out = append(out, sqCase{txs: l, max: max, thr: 64})
+			c.count("full_square_exact_fit")
+		}
+	}
+	return out
+}
+
 // duplicateTxCases: lists in which the same ordinary transaction (byte-identical) occurs several times with
 // share boundaries in between, and the same blob transaction twice - a range looked up by content instead of
 // by position returns the range of another occurrence.
@@ -1493,6 +1562,7 @@ func genC12(c *Ctx) {
 	r := c.rng
 	special := pfbAtBoundaryCases(c, r)
 	special = append(special, duplicateTxCases(c, r)...)
+	special = append(special, manyTinyTxCases(c, r)...)
 	for i := 0; i < 150*c.scale+len(special); i++ {
 		var s sqCase
 		if i < len(special) {
@@ -1618,6 +1688,24 @@ func genC12(c *Ctx) {
 			count[string(t)]++
 		}
 		ranges := css.ShareRanges(0)
+		{
+			// what the caller does with a returned map must not change later answers
+			first := fmt.Sprint(ranges)
+			scratch := css.ShareRanges(0)
+			for k2, v := range scratch {
+				v.End += 5
+				scratch[k2] = v
+			}
+			scratch[sha256.Sum256([]byte("not a transaction"))] = share.NewRange(7, 9)
+			again := css.ShareRanges(0)
+			c.check(fmt.Sprint(again) == first, "CompactShareSplitter.ShareRanges", "a later answer reflects what the caller did to an earlier one", map[string]any{"case": s.shape()})
+			shifted := css.ShareRanges(3)
+			okShift := len(shifted) == len(ranges)
+			for k2, v := range ranges {
+				okShift = okShift && shifted[k2].Start == v.Start+3 && shifted[k2].End == v.End+3
+			}
+			c.check(okShift, "CompactShareSplitter.ShareRanges", "ranges with an offset are not the ranges shifted by it", map[string]any{"case": s.shape()})
+		}
 		for k, t := range normals {
 			if count[string(t)] != 1 {
 				continue
@@ -1836,6 +1924,13 @@ func genC20(c *Ctx) {
 	for i := 0; i < 120*c.scale; i++ {
 		n := r.Intn(41)
 		nss := blobNamespaces(r, 1+r.Intn(6))
+		// version 255 namespaces with SMALL ids (constructible: NewNamespace(255, id)) and an arbitrary version:
+		// the order is version first, then id
+		v255small := make([]byte, 29)
+		v255small[0], v255small[28] = 0xff, byte(1+r.Intn(5))
+		v255rand := append([]byte{0xff}, r.Bytes(28)...)
+		vOther := append([]byte{byte(1 + r.Intn(254))}, r.Bytes(28)...)
+		nss = append(nss, v255small, v255rand, vOther)
 		nss = append(nss, txNs, pfbNs, tailNs)
 		var list [][]byte
 		for j := 0; j < n; j++ {
